@@ -13,7 +13,10 @@ CLAIMS = {
     text="TLC checks the two-secret lazy-rotation design (spec/TokenStore.tla) against the history statement of C06 "
          "(>=10 min, <30 min, bound to the IP, never-issued refused) exhaustively over a boundary alphabet of time steps; "
          "the same statement (TokenStore!VerdictOK) then judges executions of the real TokenStore driven on the virtual "
-         "clock by TLC-generated behaviours (exhaustive shallow + simulated deep), validated line by line by TLC.",
+         "clock by TLC-generated behaviours (exhaustive shallow + simulated deep), validated line by line by TLC. For unbounded time the "
+         "time bounds of the mechanism are PROVED by an inductive invariant discharged with Apalache (spec/proof/TokenInd.tla). At wire "
+         "level the get_peers / announce_peer traffic of real serving nodes is judged by the same statement (tokens bound to the IP, "
+         "a refused announce stores nothing).",
     design_ref="DESIGN.md §5 C06, §3.4",
     note="Bounded: MC exhaustive to 5 (quick) / 7 (thorough) events; code bound only on the behaviours replayed. "
          "Trusts TLC, tokio's paused clock (hook H1) and the harness as transport.",
@@ -106,7 +109,8 @@ CLAIMS = {
          "encoded by the real encoder and compared byte for byte with Wire!Encode by TLC; seeded random messages over the whole field "
          "space are checked the same way; every message is also decoded from its canonical, key-permuted and unknown-key encodings and "
          "the result compared with the original; ill-formed variants (argument/method mismatch, 19/21-byte ids, ragged node lists) "
-         "must be rejected.",
+         "must be rejected. Every variant datagram is additionally read by the specification's own decoder (spec/WireParse.tla: bencode "
+         "parser + KRPC interpreter with the acceptance rules of C13), which must agree with what the variant is meant to denote.",
     design_ref="DESIGN.md §5 C13, §3.2",
     note="Agreement with an executable oracle on the cases explored; an input-space property of a codec is not something model "
          "checking proves. The variants are produced by the harness' own bencode writer (trusted transport).",
